@@ -84,3 +84,43 @@ Definition alignments_model (ref : list Z) (left right : Z) (pos : list Z) (rows
   alignments_loop ref left pos rows.
 
 Definition zll_eqb := list_eqb zlist_eqb.
+
+(* ---- Variant.counts() (python/tskit/genotypes.py 277-297) -------------------------------------
+   a collections.Counter filled by *assignment* counts[allele] = (number of genotypes == i) for
+   i, allele in enumerate(alleles); with missing data counts[None] is assigned first.  A
+   Counter is an insertion-ordered dict: assigning an existing key overwrites its value. *)
+Definition okey_eqb (a b : option allele) : bool := opt_eqb allele_eqb a b.
+
+Fixpoint dict_set (d : list (option allele * Z)) (k : option allele) (x : Z)
+  : list (option allele * Z) :=
+  match d with
+  | [] => [(k, x)]
+  | (k', y) :: r => if okey_eqb k k' then (k', x) :: r else (k', y) :: dict_set r k x
+  end.
+
+Definition count_eq (g : list Z) (i : Z) : Z := zlen (filter (Z.eqb i) g).
+
+Fixpoint counts_loop (g : list Z) (i : Z) (al : list allele) (d : list (option allele * Z))
+  : list (option allele * Z) :=
+  match al with
+  | [] => d
+  | a :: r => counts_loop g (i + 1) r (dict_set d (Some a) (count_eq g i))
+  end.
+
+Definition counts_model (r : decode_result) : list (option allele * Z) :=
+  let '(g, al, hm) := r in
+  counts_loop g 0 al (if hm then [(None, count_eq g MISSING)] else []).
+
+Fixpoint dict_get (d : list (option allele * Z)) (k : option allele) : option Z :=
+  match d with
+  | [] => None
+  | (k', y) :: r => if okey_eqb k k' then Some y else dict_get r k
+  end.
+
+(* what counts() is documented to return: the number of samples possessing the allele *)
+Definition carriers (r : decode_result) (a : allele) : Z :=
+  let '(g, al, _) := r in
+  zlen (filter (fun x => match get al x with Ok a' => allele_eqb a a' | _ => false end) g).
+
+Definition counts_eqb (a b : list (option allele * Z)) : bool :=
+  list_eqb (fun x y => okey_eqb (fst x) (fst y) && (snd x =? snd y)) a b.
